@@ -147,6 +147,9 @@ func (e *Exec) run(fr *Frame, b *ssa.BasicBlock) (Value, *GoPanic) {
 				continue
 			case *ssa.If:
 				c := e.get(fr, x.Cond).(*Term)
+				if forkStats != nil {
+					e.curPos = e.posOf(fr, in)
+				}
 				if e.branch(c) {
 					next = b.Succs[0]
 				} else {
@@ -651,7 +654,9 @@ func (e *Exec) sliceOp(fr *Frame, x *ssa.Slice) (Value, *GoPanic) {
 	switch a := xv.(type) {
 	case *StrV:
 		if a.Opaque {
-			panic(unsupported("slicing a formatted (opaque) string"))
+			// content and length of formatted strings are not modelled: the result is again opaque
+			// and the bounds are not checked (stated in the evidence as outside the claim)
+			return e.opaqueStr(), nil
 		}
 		str = a
 		length, capacity = len(a.B), len(a.B)
